@@ -146,9 +146,8 @@ async fn scenario(c: Vec<u64>) -> Vec<u64> {
                 last_fail = Some(started);
             }
             while script.get(idx).is_some_and(|e| e.0 == 8) {
-                for _ in 0..script[idx].2 {
-                    locals.push(open_local(lport, 0x1900_0000 + locals.len() as u64));
-                }
+                // (no local connections are opened for a refused attempt: whether the client is still
+                //  there is only known once the window is over)
                 idx += 1;
             }
             drop(listener.take());
@@ -382,7 +381,7 @@ pub fn generate(a: &Args, out: &mut Out) {
         vec![400, 0, 400, 300, 7, 3000, 1, 1, 0, 0],
         // refused connections: at the start, and between other failures
         vec![800, 0, 400, 2000, 8, 0, 0, 8, 0, 0, 1, 0, 0],
-        vec![800, 0, 400, 2000, 1, 0, 0, 8, 0, 1, 1, 0, 0],
+        vec![800, 0, 400, 2000, 1, 0, 1, 8, 0, 0, 1, 0, 0],
         vec![1000, 2, 400, 2000, 1, 0, 0, 8, 0, 0, 8, 0, 0, 1, 0, 0],
         // a fatal error while a stream request is in flight is still fatal
         vec![1000, 0, 400, 2000, 1, 0, 0, 9, 120, 1, 1, 0, 0],
@@ -402,7 +401,7 @@ pub fn generate(a: &Args, out: &mut Out) {
             let kind = rng.pick(&[1u64, 1, 1, 2, 2, 3, 3, 5, 7, 4, 6, 0, 8, 8, 9]);
             let hold = rng.pick(&[0u64, 30, 120]);
             let opens = if rng.chance(1, 3) { 1 + rng.below(2) } else { 0 };
-            c.extend([kind, if kind == 7 { 3000 } else if kind == 9 { 120 } else { hold }, if kind == 9 { opens.max(1) } else { opens }]);
+            c.extend([kind, if kind == 7 { 3000 } else if kind == 9 { 120 } else { hold }, if kind == 9 { opens.max(1) } else if kind == 8 { 0 } else { opens }]);
         }
         place_refusals(&mut c);
         cases.push(c);
